@@ -233,7 +233,8 @@ def tok(entry):
 
 
 def trace_of(run, key):
-    return [[tok(e) for e in cfgl] for cfgl in run.get(key) or []]
+    """A configuration is a mapping name -> value: entries sorted by name (the order of the keys of the dict is not part of the property)."""
+    return [[tok(e) for e in sorted(cfgl)] for cfgl in run.get(key) or []]
 
 
 def check_pair(case):
@@ -283,7 +284,7 @@ def diagnose(case, A, key, pa, pb, ha, hb):
     c2 = start_child([spec_of(case, case["seed"], pb)], ha)   # only the global-generator perturbation differs from A
     c3 = start_child([spec_of(case, case["seed"], pa)], ha)   # identical twin
     (H,), (G,), (T,) = finish_child(c1, 1), finish_child(c2, 1), finish_child(c3, 1)
-    same = lambda r: "error" not in r and r.get(key) == A.get(key)
+    same = lambda r: "error" not in r and trace_of(r, key) == trace_of(A, key)
     if not same(T):
         cause = "process"
     elif not same(H) and same(G):
